@@ -278,6 +278,7 @@ class CoopLock:
         self.count = 0
         self.name = name
         self.contended = 0
+        self.acquisitions = 0
 
     def free_for(self, name: str) -> bool:
         return self.owner is None or (self.reentrant and self.owner == name)
@@ -303,6 +304,7 @@ class CoopLock:
             k.park(("lock.wait", self.name), blocked_on=self)
         self.owner = me
         self.count += 1
+        self.acquisitions += 1
         return True
 
     def release(self) -> None:
